@@ -117,7 +117,7 @@ props["C14"] = dict(title="Operands are evaluated once, left to right; logic sho
   assumptions=["oracle: truthiness table of DESIGN E.5", "object-literal initialiser order is C13"]+A_PROBE+A_VALUES,
   quick=[J(I,"VH_truthy",0), J(I,"VH_truthy",1)]+order_all+[J(I,"VH_logical",s,o) for s in (0,1) for o in (0,1)]+[J(I,"VH_conditions",0)]+[J(I,"VH_orderIdent",w) for w in range(3)],
   thorough=[J(I,"VH_truthy",s) for s in (0,1,2)]+order_all+[J(I,"VH_order",w,1,0) for w in range(15)]+[J(I,"VH_logical",s,o) for s in (0,1) for o in (0,1)]+[J(I,"VH_conditions",0), J(I,"VH_conditions",1)],
-  only_ids="^(truthiness|operand-evaluated-in-reading-order-once|every-operand-evaluated|callee-entered-after-all-arguments|callee-entered-exactly-once|left-evaluated-once|right-.*|result-is-.*|logical-.*|truthy-.*|falsy-.*|node-returns-a-signal)$")
+  only_ids="^(operand-order-.*|truthiness|operand-evaluated-in-reading-order-once|every-operand-evaluated|callee-entered-after-all-arguments|callee-entered-exactly-once|left-evaluated-once|right-.*|result-is-.*|logical-.*|truthy-.*|falsy-.*|node-returns-a-signal)$")
 
 # ---------------- C15 / C16 ----------------
 props["C15"] = dict(title="print writes each value faithfully, newline-terminated, consistent with +",
